@@ -32,20 +32,23 @@ def hexs(b):
 def table_search(ctx, tables_out):
     """The generated tables no longer satisfy the per-byte lemmas: find the byte(s)."""
     rows, frame, kw = c07_tables.parse(tables_out)
-    found = 0
+    probes = []
     for b in range(256):
         for kind, prefix in (("T", b'"'), ("B", b'b"')):
-            text = prefix + bytes.fromhex(rows[kind][b]) + b'"'
-            real = ctx.harness(["c07", "read-stdin"], input=hexs(text) + "\n").split("\t")
-            want = "V %s%02x" % ("S" if kind == "T" else "B", b)
-            got = real[2].strip() if len(real) > 2 else "?"
-            if got != want:
-                found += 1
-                ctx.violation("c07-escape:%s:%d" % (kind, b),
-                              "byte 0x%02x of a %s string is written as %r, which the reader does not read back as that byte"
-                              % (b, "text" if kind == "T" else "byte", bytes.fromhex(rows[kind][b])),
-                              {"byte": b, "string_kind": kind, "written": text.decode("latin-1"), "read_back": got, "expected": want},
-                              broken=["unescape_escape_tstr" if kind == "T" else "unescape_escape_bstr"])
+            probes.append((b, kind, prefix + bytes.fromhex(rows[kind][b]) + b'"'))
+    out = ctx.harness(["c07", "read-stdin"], input="".join(hexs(t) + "\n" for _, _, t in probes)).splitlines()
+    found = 0
+    for (b, kind, text), line in zip(probes, out):
+        real = line.split("\t")
+        want = "V %s%02x" % ("S" if kind == "T" else "B", b)
+        got = real[2].strip() if len(real) > 2 else "?"
+        if got != want:
+            found += 1
+            ctx.violation("c07-escape:%s:%d" % (kind, b),
+                          "byte 0x%02x of a %s string is written as %r, which the reader does not read back as that byte"
+                          % (b, "text" if kind == "T" else "byte", bytes.fromhex(rows[kind][b])),
+                          {"byte": b, "string_kind": kind, "written": text.decode("latin-1"), "read_back": got, "expected": want},
+                          broken=["unescape_escape_tstr" if kind == "T" else "unescape_escape_bstr"])
     return found
 
 
@@ -91,8 +94,10 @@ def run(ctx):
         return "c07-corr:" + req
 
     bad = 0
+    n_before_corr = len(ctx.violations)
     if ctx.model_bin:
         bad = verif.diff_corr(ctx, cases, "c07-json", classify)
+    corr_violations = ctx.violations[n_before_corr:]
     ctx.log("correspondence: %d cases, %d disagreements, %d real-code anomalies" % (len(cases), bad, len(special)))
 
     # ---------------------------------------------------------------- 4a. in-process oracle
@@ -103,6 +108,9 @@ def run(ctx):
         if p[0] == "ORACLE SUMMARY":
             on, obad = int(p[1]), int(p[2])
         elif p[0] == "ORACLE FAIL":
+            nfail_reported = sum(1 for v in ctx.violations if v["key"].startswith("c07-roundtrip:"))
+            if nfail_reported >= 25:
+                continue
             ctx.violation("c07-roundtrip:%s:%s" % (p[1], p[2]),
                           "print-then-parse (%s) does not give back the value" % p[1],
                           {"route": p[1], "value_vx": p[2], "detail": p[3:]}, broken=["parse_print_val"])
@@ -115,6 +123,17 @@ def run(ctx):
     # ---------------------------------------------------------------- 4c. independent texts, Python json as reader
     py_n, py_bad = python_texts(ctx, 3000 if quick else 40000)
     ctx.log("independent RFC 8259 texts (Python json as reader): %d texts, %d failures" % (py_n, py_bad))
+
+    # A disagreement between the real code and the proved model is a failing input of the property
+    # when a round trip / RFC reading really fails (the oracles above then report it too).  When
+    # every oracle on the real code still passes (e.g. a change of layout that is read back alike, or
+    # a more liberal reader), the model no longer describes the code but no failing input exists.
+    model_ties = [v for v in ctx.violations if v in corr_violations or ":model:" in v["key"] or v["key"].startswith("c07-corr:")]
+    others = [v for v in ctx.violations if v not in model_ties]
+    if model_ties and not others:
+        for v in ctx.violations:
+            v["kind"] = "no-failing-input-found"
+        ctx.notes.append("model/code disagreement without a failing round trip: the model must be re-established")
 
     distinct = len({c[1] for c in cases})
     samples = [{"request": c[1][:200], "real": c[2][:200]} for c in
@@ -133,7 +152,8 @@ def run(ctx):
         "oracle_checks": on, "cli_comparisons": cli_n, "python_texts": py_n,
         "disagreements": bad,
         "tables_regenerated": True,
-        "exhaustive": "per-byte escape tables: all 256 bytes x {text, bytes}; strings: all up to length 2 (30-byte alphabet) "
+        "exhaustive": False,
+        "exhaustive_parts": "per-byte escape tables: all 256 bytes x {text, bytes}; strings: all up to length 2 (30-byte alphabet) "
                       "and length 3 (14 bytes quick / 30 thorough)",
     })
     ctx.assumptions += [
@@ -241,6 +261,8 @@ def python_texts(ctx, count):
         for t, req, real, m in zip(texts, reqs, reals, ans):
             if real != m:
                 bad += 1
+                if bad > 20:
+                    continue
                 ctx.violation("c07-corr:" + req, "c07-json: real reader and proved model disagree on an RFC 8259 text",
                               {"text": t, "real": real, "model": m}, broken=["correspondence c07-json"])
     return n, bad
